@@ -7,6 +7,7 @@ import (
 	"encoding/json"
 	"fmt"
 	"net/http"
+	"sort"
 	"strings"
 	"testing"
 
@@ -19,7 +20,7 @@ import (
 	"github.com/flamego/flamego/verifharness/internal/rt"
 )
 
-const rule = "case = a history: 0..5 registrations the statement obliges the router to accept, then one candidate made by a named operator (valid, break-grammar, unknown-method, routes-list = declared through Routes(path, list) with well- and ill-formed comma lists, question-sibling = siblings that differ in a '?' inside the expression or in the optional mark only, repeat, repeat-short-form, plain-after-optional, optional-after-plain, dup-bind-across, dup-bind-inside, inner-optional, inner-empty, second-mid-matchall, matchall-clash, bad-expression, single-optional, metachar-literal; declared flat, or with its text cut at 1..2 arbitrary byte offsets into nested Group calls), then requests built from instances of every accepted route, then optionally 1..2 further well-formed registrations that conflict with nothing and requests for them and for the earlier routes, then optionally 1..2 registrations that are ill-formed whatever came before (each must be refused, twice), and every request once more. " +
+const rule = "case = a history: 0..5 registrations the statement obliges the router to accept, then one candidate made by a named operator (valid, break-grammar, unknown-method, routes-list = declared through Routes(path, list) with well- and ill-formed comma lists, question-sibling = siblings that differ in a '?' inside the expression or in the optional mark only, repeat, repeat-short-form, plain-after-optional, optional-after-plain, dup-bind-across, dup-bind-inside, inner-optional, inner-empty, second-mid-matchall, matchall-clash, bad-expression, single-optional, metachar-literal; declared flat, or with its text cut in front of 1..2 of its slashes into nested Group calls), then requests built from instances of every accepted route, then optionally 1..2 further well-formed registrations that conflict with nothing and requests for them and for the earlier routes, then optionally 1..2 registrations that are ill-formed whatever came before (each must be refused), and every request once more. " +
 	"Oracle: the registration validity model (MUST_REJECT / MUST_ACCEPT / EITHER from the clauses of C08) against 'did Flame.Route panic' and 'did route.AddRoute fail'; accepted routes must serve all their instances (long and short form) through a route that admits them - the reference matcher's winner; no request may panic whatever happened before. " +
 	"non-trivial = a MUST_REJECT candidate after >=1 accepted route, or an accepted candidate that is optional, match-all, has a user group or a metacharacter literal; distinct by case text"
 
@@ -40,7 +41,8 @@ type Case struct {
 	// Via: "" = Route(method, path); "routes" = Routes(path, list) with the
 	// candidate's method field holding the comma list.
 	Via string `json:"via,omitempty"`
-	// Cuts (Via ""): the candidate's text is cut at these byte offsets and
+	// Cuts (Via ""): the candidate's text is cut at these byte offsets (in front
+	// of a slash, or at an end) and
 	// declared as nested Group(piece) ... Route(method, last piece): what counts
 	// is the concatenation.
 	Cuts []int `json:"declared_through_groups_cut_at,omitempty"`
@@ -511,8 +513,8 @@ func genCase(t *rapid.T) Case {
 		// behind a match-all that carries a capture limit
 		d = rt.Deriv([]string{
 			"/on1/{p: **, capture: 2}/{capture}", "/on2/{p: **, capture: 3}/x/{capture: /[0-9]+/}", "/on3/{capture}/{q: **, capture: 1}/end",
-			"/on4/{p: **, capture: 2}/?{capture}", "/on5/{route}/{withOptional}", "/on6/{capture: **, capture: 2}/tail",
-		}[rapid.IntRange(0, 5).Draw(t, "optname")])
+			"/on4/{p: **, capture: 2}/?{capture}", "/on5/{route}/{withOptional}",
+		}[rapid.IntRange(0, 4).Draw(t, "optname")])
 	case "break-grammar":
 		b := []byte(d.Source())
 		hot := []byte("{}:,? \t#[/")
@@ -826,10 +828,19 @@ func genCase(t *rapid.T) Case {
 	if c.Via == "" && rapid.IntRange(0, 3).Draw(t, "groups") == 0 {
 		// the same text declared through nested groups, cut anywhere (also inside
 		// a segment or a bind)
-		k1 := rapid.IntRange(0, len(text)).Draw(t, "cut1")
-		c.Cuts = []int{k1}
+		// (cut in front of a slash, or at either end: a group path is then a
+		// run of whole segments - an implementation may look at it on its own)
+		places := []int{0, len(text)}
+		for i := 0; i < len(text); i++ {
+			if text[i] == '/' {
+				places = append(places, i)
+			}
+		}
+		sort.Ints(places)
+		i1 := rapid.IntRange(0, len(places)-1).Draw(t, "cut1")
+		c.Cuts = []int{places[i1]}
 		if rapid.Bool().Draw(t, "twocuts") {
-			c.Cuts = append(c.Cuts, rapid.IntRange(k1, len(text)).Draw(t, "cut2"))
+			c.Cuts = append(c.Cuts, places[rapid.IntRange(i1, len(places)-1).Draw(t, "cut2")])
 		}
 	}
 	candMethods, candUnknown, _ := candidateMethods(c)
@@ -905,7 +916,7 @@ func genCase(t *rapid.T) Case {
 	}
 	if rapid.IntRange(0, 2).Draw(t, "last") == 0 {
 		bad := []rt.Reg{{M: "GET", R: "/{a}/{a}"}, {M: "GET", R: "/l1/?l2/l3"}, {M: "POST", R: "/{a: /[/}"}, {M: "GET", R: "l4"}, {M: "FETCH", R: "/l5"},
-			{M: "*", R: "/{a}-{a}"}, {M: "GET", R: "/l6/{a: /(/}"}, {M: "*", R: "/l7/{b"}, {M: "PUT", R: "/?l8/l9"}, {M: "GET", R: "/{a: /x/, a: /y/}"}, {M: "GET", R: ""}}
+			{M: "*", R: "/{a}-{a}"}, {M: "GET", R: "/l6/{a: /(/}"}, {M: "*", R: "/l7/{b"}, {M: "PUT", R: "/?l8/l9"}, {M: "GET", R: "/{a: /x/, a: /y/}"}}
 		for i, k := 0, rapid.IntRange(1, 2).Draw(t, "nlast"); i < k; i++ {
 			g := bad[rapid.IntRange(0, len(bad)-1).Draw(t, "lastk")]
 			if len(prefix) > 0 && rapid.IntRange(0, 2).Draw(t, "lastunder") == 0 {
